@@ -86,12 +86,22 @@ def choosePath (home : Option Str) (targets : List Str) (experts : List Int) (sr
     match best with
     | [i] => .chosen i false
     | _ =>
-      let keys : List Int := (scores.zip experts).map (fun (s, e) => 100 * (s : Int) - e)
-      let mk := keys.foldl (fun a b => if b > a then b else a) (keys.headD 0)
-      let bestK := (keys.zipIdx.filter (fun (k, _) => k == mk)).map (·.2)
+      -- only the best matches compete in the tie-break (`score - expert/100`, modelled as `100*score - expert`)
+      let keys : List (Option Int) := (scores.zip experts).map (fun (s, e) => if s == mx then some (100 * (s : Int) - e) else none)
+      let mk : Option Int := keys.foldl (fun a b => match a, b with
+        | none, b => b
+        | some x, some y => if y > x then some y else some x
+        | a, none => a) none
+      let bestK := (keys.zipIdx.filter (fun (k, _) => k.isSome && k == mk)).map (·.2)
       match bestK with
       | [i] => .chosen i true
       | _ => .ambiguous best
+
+/-- target paths and their recursive expert levels, one entry per parameter (further occurrences of a
+    `.multiple` definition share the path of the first) -/
+def targetEntries (rootObjs : List Obj) (experts : List Int) : List (Str × Int) :=
+  let all := ((allDefsObj.allDefsList rootObjs []).map (·.1)).zip experts
+  all.foldl (fun acc pe => if acc.any (·.1 == pe.1) then acc else acc ++ [pe]) []
 
 inductive ArgOutcome
   | ok (objs : List Obj)
